@@ -17,6 +17,9 @@
       its evaluation returns the stored reference without calling anything, and
       the conversion of an evaluated value into the result is clone / move only;
       the entry point parses its first argument and evaluates against its second;
+  K5  no function on the parse chain discards or converts an error of the crate's
+      error type into a success (an operator-keyed object with unacceptable operands must
+      be an error, not a literal);
   K4  nothing inside a literal is evaluated: every call site of the value parser
       takes rule text from an enumerated role (entry point's rule, an operation's
       operand list, a lazy operator's own operands, elements of the literal array
@@ -137,8 +140,19 @@ def run(ctx):
             got = any(strip_payload(f)[0] == "call" and strip_payload(f)[1] and strip_payload(f)[1]["path"] == "phf::Map::<K, V>::get" for f in fields)
             ctx.check(got, "K2.returns-hit", "returned operator is the looked-up entry (bb%d, %s)" % (sbi, cfg), "the operation returned is not built from the table lookup's result", where=b.where(sbi, ssi), nontrivial=True, fn=b.key)
 
+        for t in tables:
+            for u in t.other_users:
+                ub = facts.body(u)
+                inside_eval = u in Roles_inside(facts)
+                ctx.check(not inside_eval, "K2.table-consulted-elsewhere", "%s|%s" % (t.const_key.split("::", 1)[1], u.split("::", 1)[1]),
+                          "the operator table %s is also consulted from %s during parsing/evaluation: names can be recognised by something other than the exact-match dispatch" % (t.const_key.split("::", 1)[1], u.split("::", 1)[1]),
+                          where=ub.where() if ub else "", fn=u, nontrivial=True)
         # ---------------- K3
         k3(ctx, facts, tables, disp, cfg)
+
+        # ---------------- K5: an operator-keyed object never silently falls back to a literal
+        from .c03 import k5_error_discipline
+        k5_error_discipline(ctx, facts, disp, cfg)
 
         # ---------------- K4
         from .roles import Roles
@@ -159,6 +173,12 @@ def run(ctx):
                 ctx.fail("K4.literal-inside", sk.ident(), "a computed value (which may be a literal returned as itself) is parsed as a rule: provenance %s" % sorted(sk.tags), where=sk.body.where(sk.bi), fn=sk.body.key)
             else:
                 ctx.ok("K4.literal-inside", sk.ident(), nontrivial=(verdict == "discharged"), sample={"site": sk.ident(), "tags": sorted(sk.tags), "verdict": verdict})
+
+
+def Roles_inside(facts):
+    from .roles import Roles
+    r = Roles(facts)
+    return r.inside() | facts.reach([r.value_parser.key])
 
 
 def k3(ctx, facts, tables, disp, cfg):
@@ -224,7 +244,20 @@ def k3(ctx, facts, tables, disp, cfg):
         x = x[2][0]
     order = flatten(x)
     if None in order or len(order) < 2:
-        raise Inconclusive("precedence chain of the value parser is not an Option::or chain of parser results: %s" % show_expr(res))
+        # not an `or` chain (e.g. early returns): precedence = order in which the alternatives are tried,
+        # read from dominance between the parser call sites; the literal parser must come after all others
+        sites = {}
+        for bi, t in b.calls():
+            c = callee_of(t)
+            if c and c.get("key") in parsers:
+                sites.setdefault(c["key"], []).append(bi)
+        if set(sites) != parsers or any(len(v) != 1 for v in sites.values()):
+            raise Inconclusive("precedence of the parser alternatives cannot be read: %s" % show_expr(res)[:120])
+        ks = sorted(sites, key=lambda k: len(b.dominators(sites[k][0])))
+        for i in range(len(ks) - 1):
+            if not b.dominates(sites[ks[i]][0], sites[ks[i + 1]][0]):
+                raise Inconclusive("the parser alternatives are not tried in a fixed order")
+        order = ks
     ctx.check(order[-1] == raw_key and order.count(raw_key) == 1, "K3.raw-last", "literal fallback has the lowest precedence (%s)" % cfg,
               "parser precedence is %s — the literal wrapper %s is not the last alternative, so operator objects after it would be returned as literals" % (order, raw_key),
               where=b.where(), nontrivial=True, fn=b.key, sample={"precedence": order})
